@@ -52,6 +52,29 @@ CHECKS = {
   note="MarshalJSON is outside the claim (encoding/json reflection is not executed by the engine). Keys are one-byte strings / "
        "small ints, values carry one symbolic byte of identity.",
   ref="DESIGN.md §4 C19"),
+
+ "C02": dict(
+  text="Bounded symbolic model checking with the no-crash obligation as an ENGINE-LEVEL assertion: on every explored path of the real "
+       "code no Go panic escapes a public entry point and the step/call-depth budget is not exhausted (an exhausted budget is "
+       "replayed natively as a hang / stack-overflow candidate). Inputs: (1) ALL byte strings up to N bytes for jschema (N=3/4: Len, "
+       "Check, Example, GetAST, UsedUserTypes), enum rules (4/5: Len, Check, GetAST, Values), regex schemas (4/6; regexp.Compile as an "
+       "uninterpreted validity predicate), JSON documents (4/6: Len, Check, NextLexeme loop, both option values), NewNumber and "
+       "GuessSchemaType (5/7); (2) prefix-probes: every prefix (= every truncation) of 14 jschema / 6 enum / 10 JSON corpus texts "
+       "followed by K=1/2 arbitrary bytes; (3) projects of 2/3 mutually or self referencing user types over 10/7 body kinds "
+       "(shortcut, choice, key shortcut, array, allOf, type, or, optional) with symbolic targets under 5 root shapes.",
+  note="OpenAPI conversion is outside the claim (encoding/json reflection is not executed); regex Example() (reggen) is host code and "
+       "not explored symbolically; memory exhaustion is outside; inputs longer than the bounds that are not prefix-probe shaped are outside.",
+  ref="DESIGN.md §4 C02"),
+ "C16": dict(
+  text="Bounded symbolic model checking: (1) position arithmetic of kit.JSchemaError on ALL texts of up to T tokens (newline in each of "
+       "the four conventions LF, CR, CRLF, LFCR, space, letter; T=4/6) and every byte index: Line, Column, SourceSubString equal a "
+       "reference derived from the tokens, and String() renders without panic for every index including indexes at/after the end and "
+       "2^63, 2^64-1; (2) on every rejecting path of the C02 input families (jschema, enum, regex, JSON document) the returned error is a "
+       "kit.JSchemaError or *errs.Err (never a runtime.Error or other raw Go error), its code is not the internal-failure code, its "
+       "message is not a recovered runtime-error text, a carried index lies inside the text, and rendering it succeeds.",
+  note="Message wording is outside the claim (messages built from symbolic bytes are opaque to the engine); texts mixing newline "
+       "conventions are outside (1).",
+  ref="DESIGN.md §4 C16"),
 }
 
 NOT_APPLICABLE = {
